@@ -20,7 +20,7 @@ def step_cases(variants, sd, procs=16):
         parts128 = pool.map_async(simdrv.gen_and_run128, chunks128)
         parts = pool.map(simdrv.gen_and_run, chunks)
         parts128 = parts128.get()
-    return [c for p in parts for c in p] + [c for p in parts128 for c in p]
+    return [c for p in parts for c in p] + [c for p in parts128 for c in p] + simdrv.edge_cases(sd)
 
 
 def judge_steps(rep, cases, wd, mode='c05', batch=40000):
